@@ -7,6 +7,7 @@
 -/
 import GeoModel.ValidationSpec
 import GeoProofs.Lemmas.C14Visit
+import GeoProofs.Lemmas.C14Flat
 
 namespace Geo.Proofs.C14
 open Geo Geo.V
@@ -395,5 +396,68 @@ theorem nonFinite_rejected (o : Oracle) (p : XPoly) (hext : p.ext.isEmpty = fals
   intro h
   rw [h] at this
   simp at this
+
+/-! ## 4. The F8 class: rings flattened onto a line -/
+
+/-- [T] witness lemma for F8 (`collinear_ring_accepted`, in general form): on the pinned tree NO
+ring of three segments was ever reported — all six ordered pairs are skipped — collinear ones
+included: `POLYGON((0 0,1 0,2 0,0 0))` passed with no errors. -/
+theorem three_segment_ring_accepted_on_pinned_tree (a b c : Pt) :
+    hasSelfIntersectionPinned [a, b, c, a] = false := by
+  simp [hasSelfIntersectionPinned, segs, List.zipIdx]
+
+/-- [T] after the fix: a ring of three distinct collinear points is always reported. -/
+theorem flat_ring_has_self_intersection (a b c : Pt) (hab : a ≠ b) (hbc : b ≠ c) (hca : c ≠ a)
+    (hcol : orient a b c = .col) : hasSelfIntersection [a, b, c, a] = true := by
+  have h0 : cross a b c = 0 := (orient_col_iff a b c).mp hcol
+  have hcol2 : orient b c a = .col := (orient_col_iff b c a).mpr (by rw [cross_cyc]; exact h0)
+  have hcol3 : orient c a b = .col :=
+    (orient_col_iff c a b).mpr (by rw [cross_cyc, cross_cyc]; exact h0)
+  rw [hsi3]
+  rcases three_on_a_line a b c hab hbc hca h0 with h | h | h
+  · simp [pairBad_chain a b c hab hbc hcol h]
+  · simp [pairBad_chain b c a hbc hca hcol2 h]
+  · simp [pairBad_chain c a b hca hab hcol3 h]
+
+example : hasSelfIntersection [⟨0, 0⟩, ⟨1, 0⟩, ⟨2, 0⟩, ⟨0, 0⟩] = true :=
+  flat_ring_has_self_intersection ⟨0, 0⟩ ⟨1, 0⟩ ⟨2, 0⟩ (by decide) (by decide) (by decide)
+    (by simp [orient, cross])
+
+private theorem ringToPts?_map (q : List Pt) : ringToPts? (q.map XPt.ofPt) = some q := by
+  induction q with
+  | nil => rfl
+  | cons a t ih =>
+    simp only [ringToPts?, List.map_cons, List.mapM_cons] at ih ⊢
+    simp [ih, XPt.toPt?, XPt.ofPt]
+
+/-- [T] F8 at the level of the API: a polygon whose exterior is three distinct collinear points
+is invalid (`is_valid = false`, hence `validation_errors` non-empty), whatever `relate` answers. -/
+theorem flat_ring_polygon_invalid (o : Oracle) (a b c : Pt) (hab : a ≠ b) (hbc : b ≠ c) (hca : c ≠ a)
+    (hcol : orient a b c = .col) :
+    isValid o (.polygon ⟨[a, b, c, a].map XPt.ofPt, []⟩) = false := by
+  rw [← errors_nonempty_iff_not_valid, validationErrors_eq]
+  have hmem : PolyErr.selfInt .ext ∈ polyErrs o ⟨[a, b, c, a].map XPt.ofPt, []⟩ := by
+    have hr : PolyErr.selfInt .ext ∈ ringErrs o (roleOf 0) ([a, b, c, a].map XPt.ofPt) := by
+      rw [selfInt_mem_ringErrs]
+      refine ⟨rfl, rfl, ?_, ?_⟩
+      · have h4 : ¬ (dedupConsecutive [a, b, c, a]).length < 4 := by
+          have h1 : (a == b) = false := by simp [hab]
+          have h2 : (b == c) = false := by simp [hbc]
+          have h3 : (c == a) = false := by simp [hca]
+          simp [dedupConsecutive, h1, h2, h3]
+        cases ht : tooFew ([a, b, c, a].map XPt.ofPt) true
+        · rfl
+        · exact absurd ((tooFew_iff _).mp ht) h4
+      · simp only [selfInt, ringToPts?_map]
+        exact flat_ring_has_self_intersection a b c hab hbc hca hcol
+    unfold polyErrs
+    have hne : ([a, b, c, a].map XPt.ofPt).isEmpty = false := rfl
+    simp only [XPoly.rings, List.zipIdx, hne, Bool.false_eq_true, if_false, List.mem_append]
+    left
+    simpa using hr
+  intro h
+  simp only [geomErrs, List.map_eq_nil_iff] at h
+  rw [h] at hmem
+  simp at hmem
 
 end Geo.Proofs.C14
